@@ -27,6 +27,7 @@ let suites : (string * (Sexp.t -> Sexp.t -> Verdict.t)) list = [
   "rqueue", S_redis.run_rqueue;
   "crash", S_redis.run_crash;
   "penc", S_penc.run_penc;
+  "rsess", S_rsess.run_rsess;
   "auth", S_auth.run_auth;
   "authwire", S_auth.run_authwire;
   "fedq", S_fed.run_fedq;
